@@ -671,10 +671,13 @@ def _lazy_getitem(ex, obj, key):
 def _lazy_comprehension(ex, e, frame, it, gi):
     import ast
     from .execu import Frame
-    lz = getattr(it, "lazy", None)
-    if lz is None or gi != 0 or len(e.generators) != 1 or e.generators[0].ifs or not isinstance(e, ast.ListComp):
+    # any symbolic-length source (a lazily known list, a symbolic sequence, a UserList over one): the comprehension is
+    # the list with elt(source[k]) at position k - the same reading as list(map(f, source))
+    lz = getattr(it, "lazy", None) or it
+    if gi != 0 or len(e.generators) != 1 or e.generators[0].ifs or not isinstance(e, ast.ListComp):
         return NotImplemented
     g = e.generators[0]
+    ex.assumptions_used.add("T-STD: list(map(f, s)) / [f(x) for x in s] is the list with f(s[k]) at position k")
 
     def at(ex_, i):
         f2 = Frame(frame.fi, {}, frame, frame.module)
